@@ -46,6 +46,14 @@ resname "A|B"
 [ bonds ]
 SC +BB 1 0.41 410 {"comment": "side chain to next backbone"}
 """
+# a backbone link that is vetoed by its pattern unless the next residue is a B: B-A stays without a bond
+FF_PATTERN = """[ link ]
+resname "A|B"
+[ bonds ]
+BB +BB 1 0.43 430
+[ patterns ]
+BB +BB {"atype": "TB"}
+"""
 
 
 @condition("C10.missing_edges",
@@ -104,7 +112,7 @@ def missing_edges(sx, B):
 
 @condition("C10.warnings",
            anchors=["polyply.src.gen_itp:gen_params", "polyply.src.graph_utils:find_missing_edges"],
-           rejects=(), selector_only=True, must_cover=["warned", "silent", "json ring", "json star", "explicit link"],
+           rejects=(), selector_only=True, must_cover=["warned", "silent", "json ring", "json star", "explicit link", "link vetoed by its pattern"],
            outside=["sequences longer than the bound"],
            bounds={"quick": dict(nmax=4), "thorough": dict(nmax=5)},
            budget={"quick": 200, "thorough": 900})
@@ -123,6 +131,10 @@ def warnings_(sx, B):
     try:
         ffp = Path(d) / "in.ff"
         fftext = FF
+        if sx.sel("pattern_guarded_link", [False, True]):
+            fftext += FF_PATTERN
+            if any(names[a] == "B" and names[b] == "A" for a, b in edges if b == a + 1):
+                sx.cover("link vetoed by its pattern")
         if explicit != "none":
             # an explicit link (atoms addressed by their number in the final molecule) between the backbone atoms of residues 1 and 2
             second_bb = 1 + (2 if names[0] == "A" else 1)
@@ -187,6 +199,9 @@ MOLS = {"POL": [("A", ["a1"]), ("B", ["b1"]), ("A", ["a1"])], "SOL": [("S", ["s1
         # a three-membered ring with a pendant residue (bonds listed below)
         "RNG": [("A", ["a1"]), ("B", ["b1"]), ("A", ["a1"]), ("B", ["b1"])]}
 RNG_BONDS = [(1, 2), (2, 3), (3, 1), (1, 4)]
+# a ladder: two residues of two atoms each, joined by two bonds
+MOLS["LAD"] = [("A", ["a1", "a2"]), ("B", ["b1", "b2"])]
+SPECIAL_BONDS = {"RNG": RNG_BONDS, "LAD": [(1, 2), (3, 4), (1, 3), (2, 4)]}
 
 
 def _connected(natoms, bonds):
@@ -213,7 +228,7 @@ def broken_moltypes(sx):
     disconnected_types = set()
     for name, res in MOLS.items():
         natoms = sum(len(a) for _, a in res)
-        bonds = list(RNG_BONDS) if name == "RNG" else [(i, i + 1) for i in range(1, natoms)]
+        bonds = list(SPECIAL_BONDS[name]) if name in SPECIAL_BONDS else [(i, i + 1) for i in range(1, natoms)]
         gap = None
         if name == broken and bonds:
             gap = bonds.pop(min(which, len(bonds) - 1))
@@ -240,10 +255,10 @@ def broken_moltypes(sx):
            anchors=["polyply.src.gen_coords:_check_molecules"],
            rejects=(), selector_only=True, must_cover=["rejected", "accepted", "ring still connected", "ring plus detached residue", "gap spanned by an angle only"],
            bounds={"quick": dict(layouts=[[("SOL", 2), ("POL", 1)], [("POL", 1), ("SOL", 2)], [("DIM", 2), ("POL", 1), ("SOL", 1)], [("SOL", 1), ("DIM", 1)],
-                                          [("SOL", 1), ("RNG", 1)], [("RNG", 2), ("POL", 1)]]),
+                                          [("SOL", 1), ("RNG", 1)], [("RNG", 2), ("POL", 1)], [("LAD", 1), ("SOL", 1)]]),
                    "thorough": dict(layouts=[[("SOL", 2), ("POL", 1)], [("POL", 1), ("SOL", 2)], [("DIM", 2), ("POL", 1), ("SOL", 1)], [("SOL", 1), ("DIM", 1)],
                                              [("SOL", 3), ("DIM", 2), ("POL", 2)], [("POL", 2), ("DIM", 1)], [("SOL", 1), ("RNG", 1)],
-                                             [("RNG", 2), ("POL", 1)], [("DIM", 1), ("RNG", 1), ("SOL", 2)]])})
+                                             [("RNG", 2), ("POL", 1)], [("DIM", 1), ("RNG", 1), ("SOL", 2)], [("LAD", 1), ("SOL", 1)]])})
 def connectivity_gate(sx, B):
     """Real _check_molecules (the gate gen_coords applies before building) on topologies read by the real reader in which a
     solver-chosen molecule type (chains, and a ring with a pendant residue) misses a solver-chosen bond: building is refused iff
